@@ -1,11 +1,12 @@
 (* C31 — the invariant, part 8: endpoint remove, endpoint update, join. *)
 From Coq Require Import List Arith Bool Permutation Lia.
-From Verif.C31 Require Import Model Spec Lemmas Views Groups GroupAdv Sync Inv Inv2 Inv3 Inv4 Inv5 Inv7.
+From Verif.C31 Require Import Model Spec Lemmas Views Groups GroupAdv Sync ListedOnce Inv Inv2 Inv3 Inv4 Inv5 Inv7.
 Import ListNotations.
 
 Lemma step_wep_remove : forall T st w, Inv T st -> valid_op T (OWepRemove w) = true -> step_ok T st (OWepRemove w).
 Proof.
   intros T st w I V. unfold step_ok. assert (W := wft_step T _ (i_wft _ _ I) V).
+  assert (WC := wfc_step T (OWepRemove w) (i_wfc _ _ I)).
   cbn [valid_op] in V. apply present_true in V.
   assert (A := abs_lookup T st w I). cbn [step]. unfold handle_wep_remove. cbn [tstep] in *.
   destruct (lookup w (eps st)) as [ei|] eqn:LW; cbn [entry_abs] in A; [|inversion A; congruence].
@@ -19,10 +20,15 @@ Proof.
     destruct (e_out ei) as [[j s]|] eqn:O; [|unfold emit in Hc; rewrite O in Hc; congruence].
     unfold emit in Hc. rewrite O in Hc. cbn [e_out set_out] in Hc. inversion Hc; subst.
     unfold live_ok in L. rewrite O in L. destruct L as (_ & A0 & _).
+    split; [|inversion A as [[A1' A2']]; unfold conn_of in A2'; rewrite O in A2';
+             eapply (cfree_archived T w j0 _ (t_njoins T) (remove w (t_conn T)) None (i_wfc _ _ I)); [symmetry; exact A2'|apply le_n| |left; reflexivity];
+             intro w'; rewrite lookup_remove; reflexivity].
     assert (A1 : advR w (ep_target st w ei) [[MWepRemove w]] (vapply (ep_target st w ei) (MWepRemove w))).
     { apply adv_one; [apply A0|simpl; apply Nat.eqb_refl|apply RIv_rm_ep; apply A0|apply veq_refl]. }
     intros ms Hl. rewrite groups_app in Hl. change (groups [(clk st, [MWepRemove w])]) with [[MWepRemove w]] in Hl.
     destruct (advR_seq _ _ _ _ _ _ A0 A1) as [AD _]. apply (AD cinit wfc_init holds_init ms Hl).
+  - exact WC.
+  - right. left. cbn [t_conn]. rewrite lookup_remove, Nat.eqb_refl. reflexivity.
 Qed.
 
 Lemma RIv_empty_tgt : forall st, RIv (tgt vinit st None [] [] []).
@@ -31,9 +37,10 @@ Proof. intro st. split; [|split]; simpl; intros; discriminate. Qed.
 Lemma step_wep_update : forall T st w e, Inv T st -> valid_op T (OWepUpdate w e) = true -> step_ok T st (OWepUpdate w e).
 Proof.
   intros T st w e I V. unfold step_ok. assert (W := wft_step T _ (i_wft _ _ I) V).
+  assert (WC := wfc_step T (OWepUpdate w e) (i_wfc _ _ I)).
   cbn [valid_op] in V.
   apply andb_true_iff in V. destruct V as [V D2]. apply andb_true_iff in V. destruct V as [V D1].
-  apply andb_true_iff in V. destruct V as [V1 V2]. rewrite forallb_forall in V1, V2. apply negb_true_iff in D1, D2.
+  apply andb_true_iff in V. destruct V as [V1 V2]. rewrite forallb_forall in V1, V2. apply listed_once_nodup in D1. apply negb_true_iff in D2.
   assert (HP : forall p, In p (ep_policies e) -> lookup p (pols st) <> None) by (intros p Hp; rewrite (i_pols _ _ I); apply present_true, V1, Hp).
   assert (HF : forall p, In p (ep_profiles e) -> lookup p (profs st) <> None) by (intros p Hp; rewrite (i_profs _ _ I); apply present_true, V2, Hp).
   assert (A := abs_lookup T st w I). cbn [step]. unfold handle_wep_update. cbn [tstep] in *.
@@ -47,19 +54,19 @@ Proof.
       destruct (maybe_sync_adv (stv st) st w u e j s0 sp sf si (epo_of w (mkE (Some (j, s0)) u up sp sf si)) (inv_wfb _ _ I) HP HF D1 D2)
         as (newS & t & N & MS & AD2); [apply AD|].
       rewrite MS. eexists. split; [reflexivity|].
-      eapply (single_inv T _ st _ w (Some _) I); try reflexivity; try (tbl I); try exact W; try exact HT.
+      eapply (single_inv T _ st _ w (Some _) I); try reflexivity; try (tbl I); try exact W; try exact HT; try exact WC; try (left; reflexivity).
       * intros ei' E. inversion E; subst ei'. unfold live_ok. cbn [e_out e_uid]. split; [exact U|]. split.
         -- rewrite groups_app. eapply advR_seq; [exact AD|exact AD2].
         -- unfold sync_ok. cbn [e_upd e_spol e_sprof e_sips]. split; [reflexivity|]. split; [reflexivity|exact N].
       * cbn [entry_abs e_upd t_eps t_conn]. unfold conn_of. cbn [e_out e_uid]. rewrite lookup_insert, Nat.eqb_refl, <- A2. reflexivity.
       * intros j0 w0 c s1 Hc. left. exact Hc.
     + unfold maybe_sync. cbn [e_upd e_out]. eexists. split; [reflexivity|].
-      eapply (single_inv T _ st _ w (Some _) I); try reflexivity; try (tbl I); try exact W; try exact HT.
+      eapply (single_inv T _ st _ w (Some _) I); try reflexivity; try (tbl I); try exact W; try exact HT; try exact WC; try (left; reflexivity).
       * intros ei' E. inversion E; subst ei'. exact L.
       * cbn [entry_abs e_upd t_eps t_conn]. unfold conn_of. cbn [e_out e_uid]. rewrite lookup_insert, Nat.eqb_refl, <- A2. reflexivity.
       * intros j0 w0 c s1 Hc. left. exact Hc.
   - unfold maybe_sync. cbn [e_upd e_out]. eexists. split; [reflexivity|].
-    eapply (single_inv T _ st _ w (Some _) I); try reflexivity; try (tbl I); try exact W; try exact HT.
+    eapply (single_inv T _ st _ w (Some _) I); try reflexivity; try (tbl I); try exact W; try exact HT; try exact WC; try (left; reflexivity).
     + intros ei' E. inversion E; subst ei'. reflexivity.
     + cbn [entry_abs e_upd t_eps t_conn]. unfold conn_of. cbn [e_out e_uid]. rewrite lookup_insert, Nat.eqb_refl, <- A2. reflexivity.
     + intros j0 w0 c s1 Hc. left. exact Hc.
